@@ -356,10 +356,18 @@ pub fn check_eval(t: &mut Tape) -> (Vec<Violation>, Value) {
                 }
             }
         }
-        // both at once are documented as conflicting
-        let both = vec!["cucumber".to_string(), "--name".into(), "x".into(), "--tags".into(), "@a".into()];
-        if t.rare(1, 50) && cli::Opts::<cli::Empty, cli::Empty, cli::Empty>::try_parse_from(&both).is_ok() {
-            viol.push(v("cli/conflict", "--name and --tags together are accepted although declared conflicting".into()));
+        // Both at once: the CLI may refuse the combination (it does today); if it accepts it, the
+        // name must be what is left to filter by ("the --name regex if given, else --tags"), in
+        // either order of the two options.
+        if t.rare(1, 25) {
+            for both in [["--name", "x", "--tags", "@a"], ["--tags", "@a", "--name", "x"]] {
+                let argv: Vec<String> = std::iter::once("cucumber").chain(both).map(str::to_string).collect();
+                if let Ok(o) = cli::Opts::<cli::Empty, cli::Empty, cli::Empty>::try_parse_from(&argv) {
+                    if o.re_filter.as_ref().map(regex::Regex::as_str) != Some("x") {
+                        viol.push(v("cli/name-lost-to-tags", format!("{argv:?} is accepted, but the name filter given is not kept: re_filter = {:?}, tags_filter = {:?}", o.re_filter, o.tags_filter.as_ref().map(render_tagexpr))));
+                    }
+                }
+            }
         }
     }
     (viol, json!({"expr": text, "tags": tags, "value": exp}))
